@@ -212,6 +212,33 @@ func rulesC10(c *Ctx) {
 					c.TabledOK("C10.divguard", key, c.P.InstrPos(in), reason)
 					continue
 				}
+				// the divisor is a parameter of a new helper (ip.go) that several functions call: every one of the
+				// call sites hands it a value that is checked non-zero there
+				if pa, isParam := derefVal(d).(*ssa.Parameter); isParam && NewFns[f] && len(helperSites[f]) > 1 {
+					all := true
+					for _, site := range helperSites[f] {
+						args := site.Common().Args
+						okSite := false
+						for i, q := range f.Params {
+							if q == pa && i < len(args) {
+								if g, _ := zeroGuarded(args[i], site); g {
+									okSite = true
+								} else if src := quantitySource(args[i]); src != nil {
+									if g, _ := zeroGuarded(src, site); g {
+										okSite = true
+									}
+								}
+							}
+						}
+						if !okSite {
+							all = false
+						}
+					}
+					if all {
+						c.OK("C10.divguard", key, c.P.InstrPos(in), "divisor is a helper parameter; the argument is checked non-zero at each of the "+itoa(len(helperSites[f]))+" call sites")
+						continue
+					}
+				}
 				c.Fail("C10.divguard", key, c.P.InstrPos(in), "division whose divisor is neither a non-zero constant nor dominated by a zero test on the same value, on the consensus execution cone (a zero divisor is a panic or a fatal Begin/EndBlock error); reached via "+g.Chain(parent, f))
 			}
 		}
